@@ -242,7 +242,7 @@ func checkErrorLoss(c *Ctx, r *Result, rule string) {
 			r.Instance(rule, key, c.Pos(fn.Pos()), "ok", fmt.Sprintf("%d evaluation call(s): on every path a non-nil error is returned or inspected", n), true)
 		}
 	}
-	r.Floor(rule+"-calls", total, 100)
+	r.Floor(rule+"-calls", total, 70)
 }
 
 // reviewed exemptions of R04a: one named construct, one line of reason each
